@@ -5,6 +5,8 @@
 set -u
 ID=$1; PATCH=$2; TIER=${3:-quick}
 EV=/tmp/seed/eval
+# one evaluation at a time: they share the scratch worktree and its object directory
+exec 9>/tmp/seed/eval.lock; flock 9
 HEAD=$(git -C /repo rev-parse HEAD)
 if [ ! -d $EV ]; then git -C /repo worktree add -q --detach $EV $HEAD || exit 2; fi
 git -C $EV checkout -q --detach $HEAD && git -C $EV checkout -q -- . && git -C $EV clean -fdq -e build
